@@ -101,9 +101,10 @@ def run(prog, chk):
         if f.short in ('call', 'callMethod', 'runConstructorChain', 'destroyObject'):
             g = g or prog.cfg(f)
             execs = [c for c in g.calls(lambda e: e['k'] == 'mcall' and e['callee'] == ex.name)]
-            if not execs:
-                continue
             nact += 1
+            if not execs:
+                chk.ob('R07.2', f, f.ln, False, '%s executes the statements of the body it activates (no reachable exec call found)' % f.short, key='activation:' + f.short)
+                continue
             saves = [d for d in g.nodes if d.kind == 'decl' and d.e.get('type') == 'bool' and SX.is_this_member(SX.strip(d.e.get('init')), flag)]
             clears = [n for n, l, r, op in g.writes() if SX.is_this_member(SX.strip(l), flag) and SX.is_node(SX.strip(r)) and SX.strip(r).get('k') == 'bool' and not SX.strip(r)['v']]
             restores = [n for n, l, r, op in g.writes() if SX.is_this_member(SX.strip(l), flag) and SX.is_node(SX.strip(r)) and SX.strip(r).get('k') == 'ref'
@@ -128,7 +129,15 @@ def run(prog, chk):
             nb += 1
             chk.ob('R07.3', f, b.ln, bool(ends) and g.must_follow(b, ends), 'the scope opened in %s is closed on every normal path (including a `return` taken inside a loop body)' % f.short,
                    key='scope:%s#%d' % (f.short, i))
-    chk.count('scope openings', nb, 7)
+        for i, e_ in enumerate(ends):
+            chk.ob('R07.3', f, e_.ln, bool(begins) and g.must_precede(begins, e_), 'the scope closed in %s was opened in the same function on every path (otherwise the caller\'s scope is popped)' % f.short,
+                   key='scope-end:%s#%d' % (f.short, i), nontrivial=False)
+    for f in [x for x in R.ev_methods() if x.body]:
+        # closes without any opening in the function
+        if any(n['k'] == 'mcall' and SX.short(n['callee']) == 'endScope' for n in SX.walk(f.body, into_lambdas=False)) and \
+                not any(n['k'] == 'mcall' and SX.short(n['callee']) == 'beginScope' for n in SX.walk(f.body, into_lambdas=False)) and f.short not in ('endScope',):
+            chk.ob('R07.3', f, f.ln, False, '%s closes a scope it never opened' % f.short, key='scope-end-only:' + f.short)
+    chk.count('scope openings', nb, 5)
     chk.count('activation functions', nact, 4)
 
     # ---- R07.4 subscripts ------------------------------------------------------------------------
